@@ -57,7 +57,7 @@ REPROS = {
 def classify(k, rec):
     if k.startswith(("order/cmf2", "order/cmf_trapz", "exception/cmf_trapz", "exception/cmf2")):
         return "cmf-imag-midpoint-realtime"
-    return "oracle/" + k
+    return "oracle/" + "/".join(k.split("/")[:2])
 
 
 def exact_coq_text(ties):
